@@ -372,45 +372,105 @@ class SymDict(dict):
     (needed when the caller also uses the key itself).
     """
 
+    _cache = None
+
+    def _invalidate(self):
+        self._cache = None
+
+    @staticmethod
+    def _ranges(t, values):
+        """Condition `t in values` as a disjunction of ranges."""
+        vs = sorted(set(values))
+        out, i = [], 0
+        while i < len(vs):
+            j = i
+            while j + 1 < len(vs) and vs[j + 1] == vs[j] + 1:
+                j += 1
+            if i == j:
+                out.append(t == vs[i])
+            else:
+                out.append(z3.And(t >= vs[i], t <= vs[j]))
+            i = j + 1
+        return out[0] if len(out) == 1 else z3.Or(*out)
+
     def _groups(self, key):
+        """[(value, condition)] for the stored keys the symbolic key may equal,
+        grouped by value object; cached per (dict contents, key terms)."""
         parts = key if _isinstance(key, tuple) else (key,)
+        ck = tuple(("s", p.t.get_id(), p.lo, p.hi) if type(p) is SymInt else ("c", p)
+                   for p in parts)
+        if self._cache is None:
+            self._cache = {}
+        hit = self._cache.get(ck)
+        if hit is not None:
+            return hit[1]
+        n = len(parts)
+        sympos = [i for i, p in enumerate(parts) if type(p) is SymInt]
+        if len(sympos) > 2:
+            raise EngineUnsupported("SymDict key with more than two symbolic components")
         groups, order = {}, []
         for k, v in dict.items(self):
             kp = k if _isinstance(k, tuple) else (k,)
-            if len(kp) != len(parts):
+            if len(kp) != n:
                 continue
-            conds, ok = [], True
+            ok = True
             for a, b in zip(parts, kp):
                 if type(a) is SymInt:
-                    if not _isinstance(b, _int):
+                    if not _isinstance(b, _int) or b < a.lo or b > a.hi:
                         ok = False
                         break
-                    if b < a.lo or b > a.hi:
-                        ok = False
-                        break
-                    conds.append(a.t == b)
                 elif a != b:
                     ok = False
                     break
             if not ok:
                 continue
-            c = z3.And(*conds) if len(conds) > 1 else conds[0]
             g = id(v)
             if g not in groups:
                 groups[g] = (v, [])
                 order.append(g)
-            groups[g][1].append(c)
-        return [(groups[g][0], z3.Or(*groups[g][1]) if len(groups[g][1]) > 1
-                 else groups[g][1][0]) for g in order]
+            groups[g][1].append(tuple(_int(kp[i]) for i in sympos))
+        res = []
+        for g in order:
+            v, keys = groups[g]
+            if len(sympos) == 1:
+                c = self._ranges(parts[sympos[0]].t, [k[0] for k in keys])
+            else:
+                t0, t1 = parts[sympos[0]].t, parts[sympos[1]].t
+                by0 = {}
+                for a, b in keys:
+                    by0.setdefault(a, []).append(b)
+                # merge first components that share the same second-component set
+                bysec = {}
+                for a, bs in by0.items():
+                    bysec.setdefault(tuple(sorted(set(bs))), []).append(a)
+                cs = [z3.And(self._ranges(t0, as_), self._ranges(t1, list(bs)))
+                      for bs, as_ in bysec.items()]
+                c = cs[0] if len(cs) == 1 else z3.Or(*cs)
+            res.append((v, z3.simplify(c)))
+        conds = [c for _, c in res]
+        none = z3.simplify(z3.Not(z3.Or(*conds))) if conds else z3.BoolVal(True)
+        out = (res, conds + [none])
+        self._cache[ck] = (parts, out)   # keep the terms alive (ids stay unique)
+        return out
 
     def _lookup(self, key):
         parts = key if _isinstance(key, tuple) else (key,)
         if not any_sym(parts):
             return None
-        gs = self._groups(key)
-        conds = [c for _, c in gs]
-        conds.append(z3.Not(z3.Or(*conds)) if conds else z3.BoolVal(True))
-        k = core.Ctx.cur.choose(conds)
+        gs, conds = self._groups(key)
+        if not gs:
+            return (False, None)
+        index = {id(v): i for i, (v, _) in enumerate(gs)}
+        missing = object()
+
+        def pick(m):
+            ck = tuple(m.eval(p.t, model_completion=True).as_signed_long()
+                       if type(p) is SymInt else p for p in parts)
+            v = dict.get(self, ck if _isinstance(key, tuple) else ck[0], missing)
+            if v is missing:
+                return len(gs)
+            return index.get(id(v))
+        k = core.Ctx.cur.choose(conds, simplified=True, pick=pick)
         if k == len(gs):
             return (False, None)
         return (True, gs[k][0])
@@ -439,9 +499,11 @@ class SymDict(dict):
         parts = key if _isinstance(key, tuple) else (key,)
         if any_sym(parts):
             raise EngineUnsupported("SymDict store under a symbolic key")
+        self._cache = None
         dict.__setitem__(self, key, value)
 
     def pop(self, key, *default):
+        self._cache = None
         parts = key if _isinstance(key, tuple) else (key,)
         if any_sym(parts):
             # concretise the key against the stored keys
@@ -454,6 +516,7 @@ class SymDict(dict):
         return dict.pop(self, key, *default)
 
     def __delitem__(self, key):
+        self._cache = None
         parts = key if _isinstance(key, tuple) else (key,)
         if any_sym(parts):
             for k in list(dict.keys(self)):
@@ -711,3 +774,91 @@ def dali_modules():
     return [m for n, m in sorted(sys.modules.items())
             if (n == "dali" or n.startswith("dali.")) and ".tests" not in n
             and m is not None]
+
+
+class SymKeyDict(dict):
+    """A small dict whose *stored* keys may be symbolic too (kept as a list of
+    pairs; never hashed).  Used for maps filled through the library's own API
+    with symbolic keys, e.g. DeviceInstanceTypeMapper._mapping."""
+
+    def __init__(self, *a, **k):
+        dict.__init__(self)
+        self.pairs = []
+        for kk, v in dict(*a, **k).items():
+            self[kk] = v
+
+    @staticmethod
+    def _keycond(a, b):
+        pa = a if _isinstance(a, tuple) else (a,)
+        pb = b if _isinstance(b, tuple) else (b,)
+        if len(pa) != len(pb):
+            return False
+        return E.and_(*[E.eq(x, y) for x, y in zip(pa, pb)])
+
+    def _find(self, key):
+        conds = [self._keycond(key, k) for k, _ in self.pairs]
+        idx = [i for i, c in enumerate(conds) if c is not False]
+        for i in idx:
+            if conds[i] is True:
+                return i
+        if not idx:
+            return None
+        ts = [conds[i].t for i in idx]
+        ts.append(z3.Not(z3.Or(*ts)))
+        k = core.Ctx.cur.choose(ts)
+        return None if k == len(idx) else idx[k]
+
+    def __setitem__(self, key, value):
+        i = self._find(key)
+        if i is None:
+            self.pairs.append((key, value))
+        else:
+            self.pairs[i] = (key, value)
+
+    def get(self, key, default=None):
+        i = self._find(key)
+        return default if i is None else self.pairs[i][1]
+
+    def __getitem__(self, key):
+        i = self._find(key)
+        if i is None:
+            raise KeyError(key)
+        return self.pairs[i][1]
+
+    def __contains__(self, key):
+        return self._find(key) is not None
+
+    def __len__(self):
+        return len(self.pairs)
+
+    def __bool__(self):
+        return bool(self.pairs)
+
+    def __iter__(self):
+        return iter([k for k, _ in self.pairs])
+
+    def items(self):
+        return list(self.pairs)
+
+    def keys(self):
+        return [k for k, _ in self.pairs]
+
+    def values(self):
+        return [v for _, v in self.pairs]
+
+    def clear(self):
+        self.pairs = []
+
+    def pop(self, key, *default):
+        i = self._find(key)
+        if i is None:
+            if default:
+                return default[0]
+            raise KeyError(key)
+        return self.pairs.pop(i)[1]
+
+    def __delitem__(self, key):
+        self.pop(key)
+
+    def __repr__(self):
+        return "SymKeyDict(%r)" % (self.pairs,)
